@@ -164,6 +164,7 @@ pub fn main(tier: Tier, seed: u64) -> i32 {
         run_walk(*n, 1, pols.clone(), walk, MsgPolicy::Explicit, crate::exec::mix(seed, 1400 + *ci as u64))
     });
     let mut breakdown: std::collections::BTreeMap<String, u64> = Default::default();
+    let mut unanswered_samples: Vec<serde_json::Value> = vec![];
     let mut rejected = 0u64;
     let mut accepted = 0u64;
     let mut unanswered = 0u64;
@@ -247,6 +248,9 @@ pub fn main(tier: Tier, seed: u64) -> i32 {
             }
             None => {
                 unanswered += 1;
+                if unanswered_samples.len() < 6 && matches!(cmd, Stray::ScheduleSame | Stray::ScheduleOtherParty(_)) {
+                    unanswered_samples.push(json!({"case": desc, "alive": snap.actors_alive, "outputs": snap.outputs.iter().map(|o| format!("party {} <- {:?}", o.party, o.result)).collect::<Vec<_>>(), "history_tail": r.history.iter().rev().take(4).map(|e| format!("{e:?}")).collect::<Vec<_>>()}));
+                }
                 if matches!(cmd, Stray::ValidateDup { .. }) {
                     rep.violation("validate_swallowed_in_invalid_state", format!("{desc}: never answered"), replay.clone());
                 }
@@ -261,6 +265,7 @@ pub fn main(tier: Tier, seed: u64) -> i32 {
     rep.set("coordination_states_with_stray_commands", json!(coord_states));
     rep.set("coordination_exploration_capped", json!(coord_capped));
     rep.set("answers_by_command", json!(breakdown));
+    rep.set("unanswered_schedule_samples", json!(unanswered_samples));
     rep.set("stray_rejected", json!(rejected));
     rep.set("stray_accepted_as_valid_for_state", json!(accepted));
     rep.set("stray_never_answered", json!(unanswered));
